@@ -471,3 +471,12 @@ Theorem C07_merge_reload_refuted :
                                 known unit (reload unit f (Some f')) g = false.
 Proof. exact merge_keeps_retired. Qed.
 Print Assumptions C07_merge_reload_refuted.
+
+(* general form: whatever the old and the new file, merging keeps EVERY generation the operator removed known, where the
+   station as modelled (replace) forgets it *)
+Theorem C07_merge_reload_keeps_every_retired :
+  forall S (f f' : pfile S) g,
+    known S f g = true -> known S f' g = false ->
+    known S (reload_merge S f (Some f')) g = true /\ known S (reload S f (Some f')) g = false.
+Proof. exact merge_keeps_every_retired. Qed.
+Print Assumptions C07_merge_reload_keeps_every_retired.
